@@ -45,21 +45,6 @@ theorem skipAhead_batched_partial (n : Nat) (groups : List (List FiberIn))
     saTotal (batchesOf n groups) = some (saSpecAll groups.flatten : Int) :=
   saTotal_batches n groups (fun g hg => ⟨hshape g hg, hdist g hg, hclean g hg⟩)
 
-theorem singletons_ok (n : Nat) (fs : List FiberIn)
-    (hshape : ∀ f ∈ fs, f.oi.length + 1 = n ∧ f.pre.length + 1 = n) :
-    GroupsOk n (fs.map (fun f => [f])) := by
-  intro g hg
-  obtain ⟨f, hf, rfl⟩ := List.mem_map.1 hg
-  refine ⟨?_, rfl, rfl⟩
-  intro f' hf'
-  rw [List.mem_singleton.1 hf']
-  exact hshape f hf
-
-theorem flatten_singletons (fs : List FiberIn) : (fs.map (fun f => [f])).flatten = fs := by
-  induction fs with
-  | nil => rfl
-  | cons f r ih => simp [ih]
-
 /-- **Two-finger, fed fiber by fiber** (no proviso: empty operands, disjoint, interleaved,
     identical lists, any number of fibers, equal or different outer points): the total is
     the number of merge comparison steps. -/
